@@ -11,8 +11,11 @@
 //	      truncation; byte deleted / replaced by a delimiter byte) of a 94-template corpus that uses
 //	      every tag and expression form; plus deep-nesting sources
 //	grid  every construct that takes operands (each filter with 0..3 arguments, each function, each
-//	      test, each operator, item/attribute access, for, in, include, ...) x every Go value shape
-//	      for the subject x 25 (thorough: all 92) shapes for the first argument x 4 (8) for the second
+//	      test, each operator - the names are read from the engine's core extension -, item/attribute
+//	      access, for, in, include, ...) x every Go value shape for the subject x 37 (thorough: all
+//	      111) shapes for the first argument x 6 (15) for the second
+//	hash  lists above the 50-element threshold of the `in` fast path with one element (or a needle)
+//	      of a comparable type whose contents cannot be hashed, x constructs that hash or compare
 //	hist  render histories on ONE engine: a render that fails inside an include (13 failing leaves x
 //	      12 include option sets x 11 placements), then 23 sound templates with includes nested 1..3
 //	      deep that write to / read through their contexts; several rounds, without and with forced
@@ -188,10 +191,14 @@ func runSource(fam, src string, ctxs []map[string]interface{}, nontrivial bool, 
 }
 
 var violLog = os.Getenv("C05_VIOLLOG")
+var keyLog = os.Getenv("C05_KEYLOG")
 
 // tcase = t.Case, plus (development aid) a log of every violating case
 func tcase(t *vlib.T, key string, fn func() *vlib.Outcome) {
 	t.Case(key, func() *vlib.Outcome {
+		if keyLog != "" { // development aid: the file of a dead worker names the case it was running
+			os.WriteFile(fmt.Sprintf("%s.%d", keyLog, os.Getpid()), []byte(key+"\n"), 0o644)
+		}
 		o := fn()
 		if o != nil {
 			if o.Counters == nil {
@@ -239,22 +246,46 @@ var memBefore, memAfter runtime.MemStats
 var slowLog = os.Getenv("C05_SLOWLOG")
 var onlyFam = os.Getenv("C05_ONLY")
 
+// memoryWatchdog ends the worker when the Go heap passes 8 GiB (no case of the check needs more
+// than a few hundred MiB; decoding hostile compiled data on a tree without length validation
+// reaches 2-4 GiB and is judged by its own allocation oracle). A render that allocates without
+// end would otherwise take the whole machine down before the hang guard notices; a worker that
+// ends this way is treated like every dead worker: vlib re-runs its shard key by key and names the
+// case.
+func memoryWatchdog() {
+	var ms runtime.MemStats
+	for {
+		time.Sleep(250 * time.Millisecond)
+		runtime.ReadMemStats(&ms)
+		if ms.HeapAlloc > 8<<30 {
+			fmt.Fprintf(os.Stderr, "fatal: C05 memory watchdog: the case in progress made the heap grow to %d MiB (runaway allocation); worker ended\n", ms.HeapAlloc>>20)
+			os.Exit(97)
+		}
+	}
+}
+
 func main() {
 	vlib.Main(vlib.Spec{
 		ID: "C05", Level: "exploration",
-		Rule: "bounded-exhaustive: (lex) all sequences of <=k lexemes - free, inside {% tag ... %}, inside {{ ... }} - spaced/unspaced, also behind a 4100-byte prefix (second tokenizer); (mut) all distance-1 lexeme and byte mutations and truncations of a 94-template corpus, deep nestings; (grid) each of 563 operand-taking constructs x each of 92 Go value shapes for the subject x 25 (thorough: 92) shapes for the first argument x 4 (thorough: 8) for the second; (hist) on one engine, every history [render failing inside an include: 13 failing leaves x 12 include option sets (plain/with/only/sandboxed/ignore missing and combinations, failing with-expression) x 11 placements (top, loop, capture, apply, macro, block, nested 2 and 3 deep) x policy installed or not] then [23 sound templates with includes nested 1..3 deep using set/for/macro/with/only/lookups], 4 rounds (thorough: 23), orders FS/SF/FFS and two different failures in a row, with 0/1/2 forced GCs in between - every render must not panic and must give what an engine without history gives; (bin) all byte strings <=2, all strings <=6 (thorough: 8) over 6 boundary bytes, all prefixes / single-byte substitutions / boundary length prefixes of 8 valid serialisations. Each case: fresh engine, parse, render, then a canary on the same engine; panics recovered and reported, fatal errors and hangs isolated by the worker protocol. Non-trivial = lex/mut: the source contains a tag opener (the tag parsers are reached); grid: the template parsed and was rendered with a subject that is not a plain untyped scalar; hist: the failing render really returned an error; bin: the decoder got past the version byte or into the gob fallback with >= 2 bytes",
+		Rule: "bounded-exhaustive: (lex) all sequences of <=k lexemes - free, inside {% tag ... %}, inside {{ ... }} - spaced/unspaced, also behind a 4100-byte prefix (second tokenizer); (mut) all distance-1 lexeme and byte mutations and truncations of a 94-template corpus, deep nestings; (grid) each of " + fmt.Sprint(len(constructs)) + " operand-taking constructs - every filter / function / test / word operator that the engine under test registers in its core extension (names read from the engine, so a newly added one is swept too) in every call form incl. an argument computed in the template (a / 4) - x each of " + fmt.Sprint(len(shapes)) + " Go value shapes for the subject x " + fmt.Sprint(len(aQuick)) + " (thorough: all) shapes for the first argument x " + fmt.Sprint(len(bQuick)) + " (thorough: " + fmt.Sprint(len(bShapes)) + ") for the second, the shapes including fractions strictly between 0 and 1 (float64, float32, numeric string), 1e300, 2^63 as a float, NaN, +-Inf; (hash) every list of 51 / 64 / 100 (thorough also 50, 52, 1000) elements - untyped, []Cell, [][2]interface{}, []float64, []error, [51]interface{} - with one odd element first / in the middle / last out of 25 (values of a comparable type holding a slice, map or func behind an interface; pointers, funcs, chans, NaN) x 31 needles x 28 constructs that hash or compare (in, not in, same_as, ==, hash keys, item access, merge, sort, max); (hist) on one engine, every history [render failing inside an include: 13 failing leaves x 12 include option sets (plain/with/only/sandboxed/ignore missing and combinations, failing with-expression) x 11 placements (top, loop, capture, apply, macro, block, nested 2 and 3 deep) x policy installed or not] then [23 sound templates with includes nested 1..3 deep using set/for/macro/with/only/lookups], 4 rounds (thorough: 23), orders FS/SF/FFS and two different failures in a row, with 0/1/2 forced GCs in between - every render must not panic and must give what an engine without history gives; (bin) all byte strings <=2, all strings <=6 (thorough: 8) over 6 boundary bytes, all prefixes / single-byte substitutions / boundary length prefixes of 8 valid serialisations. Each case: fresh engine, parse, render, then a canary on the same engine; panics recovered and reported, fatal errors and hangs isolated by the worker protocol. Non-trivial = lex/mut: the source contains a tag opener (the tag parsers are reached); grid: the template parsed and was rendered with a subject that is not a plain untyped scalar; hist: the failing render really returned an error; bin: the decoder got past the version byte or into the gob fallback with >= 2 bytes",
 		Assumptions: []string{
 			"'every byte string' is bounded as stated in Rule; 'hang' = a worker that prints no progress for 120 s (25 s when re-run alone), confirmed twice on the case alone",
 			"integers that drive the SIZE of a result (range bounds, `..` bounds, slice/cycle positions are fine) are kept small: range(0, 2^63-1) asks for 2^63 elements and is not distinguishable from a hang",
 			"unterminated recursion written by the template and panics raised inside caller-supplied callbacks are outside the guarantee and are not generated (context values only carry methods that cannot panic)",
 			"allocation bound for decoding compiled data: TotalAlloc delta <= 16 MiB + 64*N for N input bytes",
 		},
-		QuickDeadline: 240, ThoroughDeadline: 840,
+		QuickDeadline: 400, ThoroughDeadline: 840,
+		Extra: func(tier string, cov map[string]interface{}) {
+			// names found in the engine's core extension beyond the lists this check was written with
+			cov["names_discovered_in_engine"] = append([]string{}, discovered...)
+			cov["names_swept"] = map[string]int{"filters": len(filters), "functions": len(functions), "tests": len(tests), "operators": len(binops)}
+		},
 		Run: func(t *vlib.T) {
+			go memoryWatchdog()
 			fams := []struct {
 				name string
 				run  func(*vlib.T)
-			}{{"flood", runFlood}, {"hist", runHist}, {"grid", runGrid}, {"mut", runMut}, {"lex", runLex},
+			}{{"flood", runFlood}, {"hist", runHist}, {"hash", runHash}, {"grid", runGrid}, {"mut", runMut}, {"lex", runLex},
 				{"bin", runBin}} // bin last: on a tree that trusts length prefixes these cases allocate GiBs and are slow
 			for _, f := range fams {
 				if onlyFam == "" || onlyFam == f.name { // C05_ONLY: development aid, never set by run.sh
